@@ -1,5 +1,5 @@
 (* C08 — commit releases exactly the unused part of the pre-authorisation.  Statements only. *)
-From Zvt Require Import Base Length Cp437 Encoding Codec Lookup EnumProps CanonClass Transport Sequence SeqLookup Client ClientProps ClientLog ClientWire SpecCheck.
+From Zvt Require Import Base Length Cp437 Encoding Codec Lookup EnumProps CanonClass Transport Sequence SeqLookup Client ClientProps ClientLog ClientWire ClientSent SpecCheck.
 From Zvt.gen Require Tables.
 From Zvt.spec Require Spec.
 Open Scope N_scope.
@@ -128,6 +128,14 @@ Proof. exact token_ok_ex. Qed.
 Example C08_ex : (2500 - 1000 = 1500) /\ (2500 - 2501 = 0) /\ (2500 - 18446744073709551615 = 0) /\ (0 - 0 = 0).
 Proof. repeat split. Qed.
 
+(* and nothing else is ever asked for: whatever the terminal does and however often the connection has to be re-established,
+   every write of a commit (with other transactions open) is an acknowledgement, the registration / identity query of a new
+   connection, or THAT request — the same receipt number and the same released amount on every retry *)
+Theorem C08_commit_writes_only_its_request : forall cfg st tok amount rn w x rest,
+  assoc_tok tok (s_txs st) = Some rn -> remove_tok tok (s_txs st) = x :: rest ->
+  sent_in (fun b => housekeeping cfg b \/ b = commit_req cfg tok rn amount) w (snd (commit_transaction cfg st tok amount w)).
+Proof. exact commit_busy_vocabulary. Qed.
+
 Print Assumptions C08_commit_amount.
 Print Assumptions C08_summary_from_last_status.
 Print Assumptions C08_commit_abort_reported.
@@ -138,3 +146,4 @@ Print Assumptions C08_cancel_reverses_that_reservation.
 Print Assumptions C08_requests_in_class.
 Print Assumptions C08_summary_is_the_last_status_reported.
 Print Assumptions C08_summary_text_spells_the_number.
+Print Assumptions C08_commit_writes_only_its_request.
